@@ -14,6 +14,10 @@
   `oss` = a score column is requested), as a function of `allow_missing = am`, `n_jobs = nj` and the cpu count.
   Further `filterPair` / `overlapFilterPair`, `filterCandset` and `applyMatcher` (`SSJ/Model/Matcher.lean`).
 
+  BODY CONDITIONS: the `*_succeeds` theorems (which conclude that a call returns) assume `BodyOK` (SSJ/Props/Common.lean):
+  the PRESENT join values are strings (else TypeError) and the output header has no `_id` column (else ValueError);
+  `applyMatcher_missing` assumes string match columns when a tokenizer is given; `filterCandset_missing` that
+  `filter_pair` does not raise on the referenced pairs.  Theorems about a given result `… = .ok fr` assume nothing more.
   Scope: all tables (any distribution of missing join values — none, some, all, one side only), tokenizers,
   thresholds, operators, output attributes, `n_jobs`, cpu counts; no size restriction.  The only hypotheses are that
   the arguments pass the validations and, for `edit_distance_join`, that the threshold is a finite number
@@ -33,34 +37,38 @@ import SSJ.Props.Common
 import SSJ.Props.C11
 
 namespace SSJ.Props.C08
-open SSJ
+open SSJ SSJ.Props
 
 variable {call : Bool → Int → Int → Except PyErr Frame} {a : TableArgs} {l r : Frame} {oss : Bool}
 
 /-! ### the call succeeds for every distribution of missing values -/
 
 /-- SUCCEEDS: every join / filter_tables entry point returns a frame once its arguments have passed the
-    validations — whatever the tables contain (no present value at all, missing values on one side only, …),
+    validations and the body conditions `BodyOK` hold (the PRESENT join values are strings, the output header has no
+    `_id` column; `C15_body` shows what happens otherwise) — whatever the tables contain (no present value at all, missing values on one side only, …),
     for both values of `allow_missing`, every `n_jobs` and every cpu count -/
-theorem succeeds (h : TableCall call a l r oss) (am : Bool) (nj cpu : Int) : ∃ fr, call am nj cpu = .ok fr := by
-  obtain ⟨_, _, hm⟩ := h.master
+theorem succeeds (h : TableCall call a l r oss) (hb : BodyOK a l r oss) (am : Bool) (nj cpu : Int) :
+    ∃ fr, call am nj cpu = .ok fr := by
+  obtain ⟨_, _, hm⟩ := h.master hb
   obtain ⟨fr, hfr, _⟩ := hm am nj cpu
   exact ⟨fr, hfr⟩
 
 theorem setSimJoin_succeeds (m : Measure) (j : JoinArgs) (t : TokObj) (toks : TokFn) (cpu : Int) (l r : Frame)
-    (hv : validateJoin m.name j t = .ok (l, r)) : ∃ fr, (setSimJoinPy m j t toks cpu).result = .ok fr :=
-  succeeds (.setSim m j t toks l r hv) j.allowMissing j.nJobs cpu
+    (hv : validateJoin m.name j t = .ok (l, r)) (hb : BodyOK j.toTableArgs l r j.outSimScore) :
+    ∃ fr, (setSimJoinPy m j t toks cpu).result = .ok fr :=
+  succeeds (.setSim m j t toks l r hv) hb j.allowMissing j.nJobs cpu
 
 theorem overlapCoefficientJoin_succeeds (j : JoinArgs) (t : TokObj) (toks : TokFn) (cpu : Int) (l r : Frame)
-    (hv : validateJoin "OVERLAP_COEFFICIENT" j t = .ok (l, r)) :
+    (hv : validateJoin "OVERLAP_COEFFICIENT" j t = .ok (l, r)) (hb : BodyOK j.toTableArgs l r j.outSimScore) :
     ∃ fr, (overlapCoefficientJoinPy j t toks cpu).result = .ok fr :=
-  succeeds (.ovc j t toks l r hv) j.allowMissing j.nJobs cpu
+  succeeds (.ovc j t toks l r hv) hb j.allowMissing j.nJobs cpu
 
 /-- for the edit-distance join the threshold must in addition be a finite number -/
 theorem editDistanceJoin_succeeds (j : JoinArgs) (t : TokObj) (toks : TokFn) (cpu : Int) (l r : Frame)
-    (hv : validateJoin "EDIT_DISTANCE" j t = .ok (l, r)) (hthr : FiniteNum j.threshold) :
+    (hv : validateJoin "EDIT_DISTANCE" j t = .ok (l, r)) (hthr : FiniteNum j.threshold)
+    (hb : BodyOK j.toTableArgs l r j.outSimScore) :
     ∃ fr, (editDistanceJoinPy j t toks cpu).result = .ok fr :=
-  succeeds (.ed j t toks l r hv hthr) j.allowMissing j.nJobs cpu
+  succeeds (.ed j t toks l r hv hthr) hb j.allowMissing j.nJobs cpu
 
 /-- … because an infinite threshold passes the validations and then makes `math.floor` raise OverflowError -/
 theorem editDistanceJoin_inf_fails (j : JoinArgs) (t : TokObj) (toks : TokFn) (cpu : Int) (l r : Frame)
@@ -72,19 +80,22 @@ theorem editDistanceJoin_inf_fails (j : JoinArgs) (t : TokObj) (toks : TokFn) (c
 
 theorem overlapJoin_succeeds (j : JoinArgs) (t : TokObj) (toks : TokFn) (cpu : Int) (l r : Frame)
     (f : OverlapFilterObj) (hf : mkOverlapFilter j.threshold j.compOp j.allowMissing t = .ok f)
-    (hv : validateTablesAttrs j.toTableArgs = .ok (l, r)) (hk : validateOutAndKeys j.toTableArgs l r = .ok ()) :
+    (hv : validateTablesAttrs j.toTableArgs = .ok (l, r)) (hk : validateOutAndKeys j.toTableArgs l r = .ok ())
+    (hb : BodyOK j.toTableArgs l r j.outSimScore) :
     ∃ fr, (overlapJoinPy j t toks cpu).result = .ok fr :=
-  succeeds (.overlapJoin j t toks l r f hf hv hk) j.allowMissing j.nJobs cpu
+  succeeds (.overlapJoin j t toks l r f hf hv hk) hb j.allowMissing j.nJobs cpu
 
 theorem filterTables_succeeds (k : FilterKind) (f : FilterObj) (a : TableArgs) (t : TokObj) (toks : TokFn) (cpu : Int)
-    (l r : Frame) (hv : validateTablesAttrs a = .ok (l, r)) (hk : validateOutAndKeys a l r = .ok ()) :
+    (l r : Frame) (hv : validateTablesAttrs a = .ok (l, r)) (hk : validateOutAndKeys a l r = .ok ())
+    (hb : BodyOK a l r false) :
     ∃ fr, filterTables k f a t toks cpu = .ok fr :=
-  succeeds (.filterTables k f a t toks l r hv hk) f.allowMissing a.nJobs cpu
+  succeeds (.filterTables k f a t toks l r hv hk) hb f.allowMissing a.nJobs cpu
 
 theorem overlapFilterTables_succeeds (f : OverlapFilterObj) (a : TableArgs) (oss : Bool) (tok : String → List Tok)
-    (cpu : Int) (l r : Frame) (hv : validateTablesAttrs a = .ok (l, r)) (hk : validateOutAndKeys a l r = .ok ()) :
+    (cpu : Int) (l r : Frame) (hv : validateTablesAttrs a = .ok (l, r)) (hk : validateOutAndKeys a l r = .ok ())
+    (hb : BodyOK a l r oss) :
     ∃ fr, overlapFilterTables f a oss tok cpu = .ok fr :=
-  succeeds (.overlapFilterTables f a oss tok l r hv hk) f.allowMissing a.nJobs cpu
+  succeeds (.overlapFilterTables f a oss tok l r hv hk) hb f.allowMissing a.nJobs cpu
 
 /-! ### allow_missing = False -/
 
@@ -216,12 +227,14 @@ theorem overlapFilterPair_missing (f : OverlapFilterObj) (tok : String → List 
     (h : lv.isMissing = true ∨ rv.isMissing = true) : overlapFilterPair f tok lv rv = !f.allowMissing :=
   SSJ.overlapFilterPair_missing f tok lv rv h
 
-/-- `filter_candset` (with any of these filters' `filter_pair` as `fp`): the result keeps exactly the candidate
-    rows not dropped by `fp`; a candidate pair with a missing join value on either side is therefore dropped when
+/-- `filter_candset` (with any of these filters' `filter_pair` as the Python call `fp`, which on the referenced value
+    pairs answers the total function `fpb` — `hok`; for `filterPairPy` / `overlapFilterPairPy` this holds when the two
+    filter columns hold only strings and missing values, and ALWAYS for a pair with a missing side, on which
+    `filter_pair` returns before tokenizing): the result keeps exactly the candidate rows not dropped by `fpb`; a candidate pair with a missing join value on either side is therefore dropped when
     `allow_missing=False` and kept when `allow_missing=True`.  (`lval cr`, `rval cr`: the join values of the rows
     carrying the keys of candidate row `cr`.) -/
-theorem filterCandset_missing (a : CandsetArgs) (fp : Cell → Cell → Bool) (am : Bool)
-    (hfp : ∀ lv rv, lv.isMissing = true ∨ rv.isMissing = true → fp lv rv = !am)
+theorem filterCandset_missing (a : CandsetArgs) (fp : Cell → Cell → Except PyErr Bool) (fpb : Cell → Cell → Bool)
+    (am : Bool) (hfp : ∀ lv rv, lv.isMissing = true ∨ rv.isMissing = true → fpb lv rv = !am)
     (cpu : Int) (c l r : Frame)
     (hc : a.candset = some c) (hlt : a.ltable = some l) (hrt : a.rtable = some r)
     (hv1 : validateAttr a.candLKey c = .ok ()) (hv2 : validateAttr a.candRKey c = .ok ())
@@ -234,13 +247,14 @@ theorem filterCandset_missing (a : CandsetArgs) (fp : Cell → Cell → Bool) (a
                                          lrow.cell (l.colIdx a.lAttr) = lval cr)
     (hr : ∀ cr ∈ c.rows, ∃ rrow ∈ r.rows, rrow.cell (r.colIdx a.rKey) = cr.cell (c.colIdx a.candRKey) ∧
                                          rrow.cell (r.colIdx a.rAttr) = rval cr)
+    (hok : ∀ cr ∈ c.rows, fp (lval cr) (rval cr) = .ok (fpb (lval cr) (rval cr)))
     (hchunks : (chunksFor (candLabelled c) a.nJobs cpu).flatten = candLabelled c) :
     ∃ fr, filterCandset a fp cpu = .ok fr ∧
-      fr.rows = c.rows.filter (fun cr => !fp (lval cr) (rval cr)) ∧
+      fr.rows = c.rows.filter (fun cr => !fpb (lval cr) (rval cr)) ∧
       ∀ cr ∈ c.rows, (lval cr).isMissing = true ∨ (rval cr).isMissing = true →
         (am = false → cr ∉ fr.rows) ∧ (am = true → cr ∈ fr.rows) := by
-  obtain ⟨fr, hfr, _, _, hrows⟩ := filterCandset_rows a fp cpu c l r hc hlt hrt hv1 hv2 hv3 hv4 hv5 hv6 hv7 hv8
-    hv9 hv10 lval rval hl hr hchunks
+  obtain ⟨fr, hfr, _, _, hrows⟩ := filterCandset_rows a fp fpb cpu c l r hc hlt hrt hv1 hv2 hv3 hv4 hv5 hv6 hv7 hv8
+    hv9 hv10 lval rval hl hr hok hchunks
   refine ⟨fr, hfr, hrows, fun cr hcr hm => ?_⟩
   rw [hrows, List.mem_filter, hfp _ _ hm]
   constructor
@@ -264,7 +278,8 @@ theorem applyMatcher_missing (a : MatcherArgs) (t : Option TokObj) (toks : TokFn
     (hv10 : validateKeyAttr a.lKey l = .ok ()) (hv11 : validateKeyAttr a.rKey r = .ok ())
     (hl : ∀ cr ∈ c.rows, cr.cell (c.colIdx a.candLKey) ∈ l.col a.lKey)
     (hr : ∀ cr ∈ c.rows, cr.cell (c.colIdx a.candRKey) ∈ r.col a.rKey)
-    (hchunks : (chunksFor c.rows a.nJobs cpu).flatten = c.rows) :
+    (hchunks : (chunksFor c.rows a.nJobs cpu).flatten = c.rows)
+    (hstr : t.isSome → StrColumn l a.lAttr ∧ StrColumn r a.rAttr) :
     ∃ fr, applyMatcher a t toks sim cpu = .ok fr ∧
       fr.rows = c.rows.filterMap (matcherTableSpec a t toks sim c l r) ∧
       ∀ cr ∈ c.rows, ∀ ls ∈ l.rows, ∀ rs ∈ r.rows,
@@ -274,7 +289,7 @@ theorem applyMatcher_missing (a : MatcherArgs) (t : Option TokObj) (toks : TokFn
         (a.allowMissing = true → ∃ cells, matcherTableSpec a t toks sim c l r cr =
             some (cr.cell 0 :: cells ++ (if a.outSimScore then [Cell.missing] else []))) := by
   obtain ⟨fr, hfr, _, hrows⟩ := applyMatcher_rows a t toks sim cpu c l r hc hlt hrt hv1 hv2 hv3 hv4 hv5 hv6 hv7 hv8
-    hv9 hv10 hv11 hl hr hchunks
+    hv9 hv10 hv11 hl hr hchunks hstr
   refine ⟨fr, hfr, hrows, fun cr _ ls hls rs hrs hkl hkr hm => ?_⟩
   have hm' : (ls.cell (l.colIdx a.lAttr)).isMissing = true ∨ (rs.cell (r.colIdx a.rAttr)).isMissing = true := by
     simpa only [Present, valOf, Bool.not_eq_false] using hm
